@@ -33,6 +33,7 @@ partial def loop (h : IO.FS.Stream) (out : IO.FS.Stream) : IO Unit := do
     out.flush
     return ()
   out.putStrLn (dispatch line)
+  out.flush   -- one answer per line, visible at once: the harness times each line out separately
   loop h out
 
 def main : IO Unit := do
